@@ -573,7 +573,8 @@ type ccWorld struct {
 	msgs       []ccMsg
 	finals     []ccFinal
 	reports    []string
-	published  []string
+	published  []string // sweep transactions (world-made)
+	commitPub  []string // PublishTx calls (our commitment)
 	swept      []string
 	forceClose int
 	incubated  []string
@@ -746,14 +747,43 @@ func (n *ccNotifier) RegisterSpendNtfn(op *wire.OutPoint, _ []byte,
 	})
 	sub.ch = ev.Spend
 	g := ccGoid()
+	inLaunch := ccCalledFromLaunch()
 	w.mu.Lock()
 	w.seq++
 	sub.seq = w.seq
 	w.idents[g] = "op:" + op.String()
 	w.spendSubs = append(w.spendSubs, sub)
+	// Resolver.Launch is executed synchronously by the arbitrator's main
+	// loop (launchResolvers waits for it) and some Launch methods wait
+	// for the spend of an output that is already spent (second stage
+	// after a restart). A real notifier dispatches such historical spends
+	// at once; do the same for registrations made inside Launch, which
+	// only offers inputs to the sweeper afterwards (no durable effect),
+	// so the schedule stays deterministic.
+	if d, ok := w.spent[*op]; ok && inLaunch && !n.inc.dead {
+		sub.delivered = true
+		sub.ch <- d
+	}
 	w.mu.Unlock()
 
 	return ev, nil
+}
+
+// ccCalledFromLaunch reports whether a resolver's Launch method is on the
+// current call stack.
+func ccCalledFromLaunch() bool {
+	var pcs [32]uintptr
+	n := runtime.Callers(2, pcs[:])
+	frames := runtime.CallersFrames(pcs[:n])
+	for {
+		f, more := frames.Next()
+		if strings.HasSuffix(f.Function, ").Launch") {
+			return true
+		}
+		if !more {
+			return false
+		}
+	}
 }
 
 func (n *ccNotifier) RegisterBlockEpochNtfn(*chainntnfs.BlockEpoch) (
@@ -1564,7 +1594,7 @@ func ccBuildArb(t *testing.T, sc *ccScenario, inc *ccInc,
 	cfg.PublishTx = func(tx *wire.MsgTx, _ string) error {
 		return inc.effect("PublishTx", func() error {
 			w.mu.Lock()
-			w.published = append(w.published, tx.TxHash().String())
+			w.commitPub = append(w.commitPub, tx.TxHash().String())
 			w.mu.Unlock()
 
 			return nil
